@@ -289,7 +289,7 @@ def iStep (P : Nat) (ctx : Ctx) (st : IState) (k : Candle Rat) (rv : List Rat) (
     let (sg, s2) := s1.sigs rv
     pure { vals := v, sigs := exacts sg, st := .cmf s2 }
   | .mfi s => do
-    let (v, s1) ← s.vals k
+    let (v, s1) ← MFI.valsF (fun c => srcF c .tp) s k
     let (sg, s2) := s1.sigs rv rne53
     pure { vals := v, sigs := exacts sg, st := .mfi s2 }
   | .cmo s => do
